@@ -441,9 +441,18 @@ func (p *plProvider) Release(a core.Ammo) {
 	p.r.log(plEv{Ev: "rel", Item: a.(*plAmmo).id})
 }
 
-type plAggregator struct{ r *plRun }
+// plAggregator records every Report and - when real is set - hands the sample on to the REAL phout aggregator, which
+// writes its line and returns the sample to netsample's pool (as in a real run: a sample is reused by the next
+// Acquire as soon as its line is written, so whoever keeps a reported sample sees it change).
+type plAggregator struct {
+	r    *plRun
+	real netsample.Aggregator
+}
 
-func (a *plAggregator) Run(ctx context.Context, _ core.AggregatorDeps) error {
+func (a *plAggregator) Run(ctx context.Context, deps core.AggregatorDeps) error {
+	if a.real != nil {
+		return a.real.Run(ctx, deps)
+	}
 	<-ctx.Done()
 	return nil
 }
@@ -459,9 +468,12 @@ func (a *plAggregator) Report(s core.Sample) {
 	net, _ := strconv.Atoi(f[len(f)-2])
 	if ns.Tags() == netsample.DiscardedShootTag {
 		a.r.log(plEv{Ev: "discard", N: net})
-		return
+	} else {
+		a.r.log(plEv{Ev: "rep", N: net})
 	}
-	a.r.log(plEv{Ev: "rep", N: net})
+	if a.real != nil {
+		a.real.Report(ns)
+	}
 }
 
 type plGun struct {
@@ -565,6 +577,17 @@ func plRunOne(c plConf, seed int64) plResult {
 	prov := &plProvider{r: r, a: c.A, delay: c.ProvDelay}
 	prov.cond = sync.NewCond(&prov.mu)
 	aggr := &plAggregator{r: r}
+	// every run with discard_overflow on: the real phout (on a memory file system) behind the recording aggregator
+	phFs := afero.NewMemMapFs()
+	if c.Discard {
+		phc := netsample.DefaultPhoutConfig()
+		phc.Destination = "/phout.log"
+		real, err := netsample.NewPhout(phFs, phc)
+		if err != nil {
+			panic(err)
+		}
+		aggr.real = real
+	}
 	var gmu sync.Mutex
 	nsched := 0
 	per, discard := c.Per, c.Discard
@@ -584,7 +607,21 @@ func plRunOne(c plConf, seed int64) plResult {
 			return nil, err
 		}
 		if c.Past > 0 {
-			inner.Start(time.Now().Add(-c.Past))
+			// a factory that hands out a schedule object it has handed out before (already started) is the
+			// observation, not a failure of the driver: recorded as an event no behaviour of Pool.tla contains
+			reused := func() (reused bool) {
+				defer func() {
+					if p := recover(); p != nil {
+						reused = true
+					}
+				}()
+				inner.Start(time.Now().Add(-c.Past))
+				return false
+			}()
+			if reused {
+				r.log(plEv{Ev: "sched_reused"})
+				return nil, fmt.Errorf("the schedule factory returned a schedule that was already started")
+			}
 		}
 		sid := 0
 		if c.Per {
@@ -663,6 +700,23 @@ func plRunOne(c plConf, seed int64) plResult {
 		"request": vt.Small(int64(m.Request.Get())), "response": vt.Small(int64(m.Response.Get())),
 		"inst_start": vt.Small(int64(m.InstanceStart.Get())), "inst_finish": vt.Small(int64(m.InstanceFinish.Get())),
 		"created": created, "shots": shots, "acquired": acquired}
+	// what the real phout wrote: one line per Report, the discarded ones tagged and coded as such
+	end["phout"] = aggr.real != nil
+	phLines, phDisc := 0, 0
+	if aggr.real != nil {
+		b, _ := afero.ReadFile(phFs, "/phout.log")
+		for _, ln := range strings.Split(string(b), "\n") {
+			f := strings.Split(ln, "\t")
+			if len(f) < 12 {
+				continue
+			}
+			phLines++
+			if f[1] == netsample.DiscardedShootTag && f[len(f)-2] == "777" {
+				phDisc++
+			}
+		}
+	}
+	end["ph_lines"], end["ph_disc"] = phLines, phDisc
 	return plResult{conf: c, evs: evs, end: end}
 }
 
